@@ -548,6 +548,13 @@ def solve_configs():
                                                                     user_params=diag(rng, 0.3, {"restarts.soft.max_fake_successful_steps": 1})))
     C["unsuccessful-restarts"] = lambda rng: (noisy(rng, 1e-2), x0r(), dict(maxfun=90, objfun_has_noise=True, user_params=diag(
         rng, 0.3, {"restarts.use_soft_restarts": False, "restarts.auto_detect.history": 5, "restarts.max_unsuccessful_restarts": 1})))
+    # restarts that really happen (loose rhoend) and grow the interpolation set (points appended to a full model)
+    C["soft-restarts-increase-npt"] = lambda rng: (noisy(rng, 1e-2), x0r(), dict(maxfun=int(rng.integers(120, 220)), rhoend=1e-2, objfun_has_noise=True,
+                                                                                 user_params=diag(rng, 0.5, {"restarts.increase_npt": True, "restarts.max_npt": 6,
+                                                                                                             "restarts.increase_npt_amt": int(rng.integers(1, 3))})))
+    C["hard-restarts-increase-npt"] = lambda rng: (noisy(rng, 1e-2), x0r(), dict(maxfun=int(rng.integers(120, 220)), rhoend=1e-2, objfun_has_noise=True,
+                                                                                 user_params=diag(rng, 0.5, {"restarts.use_soft_restarts": False, "restarts.increase_npt": True,
+                                                                                                             "restarts.max_npt": 6})))
     C["scaled-bounds"] = lambda rng: (_rosen, x0r(), dict(maxfun=int(rng.integers(10, 35)), bounds=(np.array([-5.0, -5.0]), np.array([5.0, 5.0])),
                                                           scaling_within_bounds=True, user_params=diag(rng)))
 
